@@ -407,6 +407,10 @@ func main() {
 		}
 	}
 	run.Extra["work_items_by_origin"] = byOrigin
+	for k := 0; k < 6 && k < len(items); k++ {
+		it := items[(k*7919+13)%len(items)]
+		run.Sample(map[string]any{"kind": it.Kind, "origin": it.Origin, "text": firstN(it.Text, 120), "token_slice": it.Kinds})
+	}
 	tops, sops := textOps(), sliceOps()
 	run.Extra["operations_text"], run.Extra["operations_slice"] = len(tops), len(sops)
 	const shards = 16
